@@ -8,6 +8,7 @@ import (
 	"errors"
 	"fmt"
 	"io"
+	"math"
 	"path/filepath"
 	"slices"
 	"strings"
@@ -163,10 +164,15 @@ func (e *EncryptedISO) ReadAt(b []byte, off int64) (int, error) {
 		return 0, syscall.EINVAL
 	}
 
+	if off > math.MaxInt64-int64(len(b))-int64(sectorSize) {
+		return 0, io.EOF // nothing can be stored there, and range arithmetic below would overflow
+	}
+
 	// Sector can be decrypted only as a whole, so we have to read all sectors touched by requested range.
 	// Most of the time requests are aligned to sector and caller's buffer is used directly.
+	// Aligned in bytes: sector numbers have 32 bits only, offset may lie beyond everything they can address.
 	reqStart, reqEnd := sizeBytes(off), sizeBytes(off)+sizeBytes(len(b))
-	start, end := reqStart.floorSectors().bytes(), reqEnd.sectors().bytes()
+	start, end := reqStart-reqStart%sectorSize, reqEnd+(sectorSize-reqEnd%sectorSize)%sectorSize
 
 	buf := b
 	if start != reqStart || end != reqEnd {
@@ -240,6 +246,14 @@ func (e *EncryptedISO) clearRegionsData(start sizeBytes, data []byte) {
 
 // decryptData decrypts all complete sectors of encrypted regions in data. Start must be aligned to sector.
 func (e *EncryptedISO) decryptData(start sizeBytes, data []byte) {
+	// encrypted regions are described by 32-bit sector numbers, everything beyond them is plain
+	const addressable = sizeBytes(math.MaxInt32) * sectorSize
+	if start >= addressable {
+		return
+	}
+
+	data = data[:min(sizeBytes(len(data)), addressable-start)]
+
 	end := start + sizeBytes(len(data))
 	for _, region := range e.encryptedRegions {
 		if region.end <= start.sectors() || region.start > end.sectors() { // not covered
